@@ -168,9 +168,22 @@ def entry_kind(case):
     return 'markup'
 
 
+class Budget(BaseException):
+    """more template loads than LOAD_BUDGET (or more events than EVENT_BUDGET) in one render: the
+    case is skipped (deterministic work bound; keeps endless recursions that also grow the
+    match-template list affordable)"""
+
+
+EVENT_BUDGET = 20000
+
+
 def canon_events(stream):
     out = []
+    n = 0
     for kind, data, pos in stream:
+        n += 1
+        if n > EVENT_BUDGET:
+            raise Budget()
         k = str(kind)
         if k == 'TEXT':
             s = str(data)
@@ -205,11 +218,6 @@ def exc_name(e):
     if isinstance(e, RecursionError):
         return 'RecursionError'
     return 'Other:%s' % type(e).__name__
-
-
-class Budget(BaseException):
-    """more template loads than LOAD_BUDGET in one render: the case is skipped (deterministic
-    work bound; keeps endless recursions that also grow the match-template list affordable)"""
 
 
 def render_real(case, dirs, auto_reload):
@@ -628,6 +636,13 @@ class Gen(object):
             names[0] = rng.choice(['t.txt', 'sub/u.txt', 'sub/d.html'])
             names = list(dict.fromkeys(names))
         self.names = names
+        # macro calls only in the "upper" files; includes written inside macro bodies and in the
+        # "lower" files target lower files only: a macro whose body includes a file that calls
+        # the macro again recurses through an include in run-time mode (RecursionError) but, once
+        # inlined, inside _flatten's explicit stack (an endless loop, no exception) — both
+        # diverge, the second cannot be observed by a test run
+        k = rng.randrange(1, len(names) + 1)
+        self.lower = set(names[k:])
         self.use_match = rng.random() < 0.45
         self.macros = ['m0', 'm1'] if rng.random() < 0.5 else []
         self.data = {
@@ -698,6 +713,8 @@ class Gen(object):
             cands = [m for m in MISSING if kind_of(m) == self.kind or self.kind == 'markup']
             return rng.choice(cands)
         cands = [n for n in self.names if self.kind == 'markup' or kind_of(n) == 'text']
+        if self.in_def or self.here in self.lower:
+            cands = [n for n in cands if n in self.lower]
         if not cands:
             return rng.choice(MISSING)
         later = [n for n in cands if self.names.index(n) > self.names.index(self.here)]
@@ -782,7 +799,7 @@ class Gen(object):
                     return ['def', rng.choice(self.macros), self.nodes(depth - 1, svars, lvars, False, in_fb)]
                 finally:
                     self.in_def -= 1
-            if markup and (self.zone or not zone) and not self.in_def:
+            if markup and (self.zone or not zone) and not self.in_def and self.here not in self.lower:
                 return ['call', rng.choice(self.macros)]
             return ['text', rand_text(rng)]
         if r < 0.96 and markup and self.use_match:
